@@ -9,16 +9,18 @@ from __future__ import annotations
 import ast
 from pathlib import Path
 
-from ..astx import call_name, dotted, enclosing_stmt, expand, kwarg, last
+from ..astx import atoms, call_name, dotted, enclosing_stmt, expand, facts_at, kwarg, last, reaching_def
 from ..cfg import CFG
 from ..index import AnchorError, FuncNode, _set_parents, enclosing_function, parent
 from ..selftest import Twin
+from .c17 import _multi
 from .c32 import Alphabet, L_all, L_union, L_word, Unsupported, regex_charsets, regex_match_lang, regex_preds
 
 EXPLANATION = (
     "R1 (file-name table, decided on regular languages): for every kind of file create_backup_archive writes (name template = deployment "
     "name + literal suffix, or a fixed name) and every valid deployment name (the language of `_DNS_1035_RE`), the file name falls into "
-    "exactly one branch of read_backup_archive's if/elif chain (branch language = its own test minus all earlier tests), that branch strips "
+    "exactly one branch of read_backup_archive's decision list over the member name (an if/elif chain or `continue` guards; branch language = its own test minus "
+    "the tests that path facts show to be already decided false where it is evaluated), that branch strips "
     "exactly the suffix the writer appended, decodes with the inverse codec chain (yaml/json/encrypt vs safe_load/loads/decrypt) and stores "
     "into the container that feeds the BackupEntry field of the writer's source (deployments->cr, secrets->secret, generations->generation); "
     "file names of different kinds never collide. "
@@ -158,35 +160,61 @@ class Writer:
 
 
 class Reader:
+    """The reader's decision list over the member name: every `if` whose test is a recognised test of the name variable
+    (`name == "lit"` / `name.endswith("lit")`). Which earlier tests are already decided where a test is evaluated is read
+    from path facts (dominating branch edges), so an if/elif chain, a sequence of `if …: …; continue` guards and inverted
+    `if not …: continue` guards give the same table."""
+
     def __init__(self, fn: ast.AST):
         self.fn = fn
-        # the if/elif chain over the member name
-        chain = None
+        self.cfg = CFG(fn)
+        self._facts: dict[int, set] = {}
+        by_subject: dict[str, list[dict]] = {}
         for n in ast.walk(fn):
-            if isinstance(n, ast.If) and not (isinstance(parent(n), ast.If) and n in parent(n).orelse and len(parent(n).orelse) == 1):
-                br = self._chain(n)
-                if br and len(br) >= 2 and (chain is None or len(br) > len(chain[1])):
-                    chain = (n, br)
-        if chain is None:
-            raise AnchorError(f"`{READER}` has no if/elif chain over file names")
-        self.head, self.branches = chain
-        subj = {b["subject"] for b in self.branches}
-        if len(subj) != 1:
-            raise AnchorError(f"reader chain tests several variables {sorted(subj)}")
-        self.subject = subj.pop()
+            if isinstance(n, ast.If) and enclosing_function(n) is fn:
+                neg = False
+                t_ = n.test
+                while isinstance(t_, ast.UnaryOp) and isinstance(t_.op, ast.Not):
+                    neg, t_ = not neg, t_.operand
+                t = self._test(t_)
+                if t is None:
+                    continue
+                at = atoms(t_, True)
+                if len(at) != 1:
+                    continue
+                t["atom"] = at[0]  # (normalised text, polarity) meaning "the test holds"
+                t["node"] = n
+                t["negated"] = neg
+                by_subject.setdefault(t["subject"], []).append(t)
+        cands = [v for v in by_subject.values() if len(v) >= 2]
+        if not cands:
+            raise AnchorError(f"`{READER}` has no decision list (if/elif chain or `continue` guards) over file names")
+        if len(cands) > 1:
+            raise AnchorError(f"reader tests several variables {sorted(by_subject)}")
+        self.branches = sorted(cands[0], key=lambda b: (b["node"].lineno, b["node"].col_offset))
+        self.subject = self.branches[0]["subject"]
+        self.head = self.branches[0]["node"]
+        # the same test written twice would make the table ambiguous
+        if len({b["atom"][0] for b in self.branches}) != len(self.branches):
+            raise AnchorError("reader tests the same file-name condition twice")
+        for b in self.branches:
+            known_t, known_f = [], []
+            for node in self.cfg.nodes_of(b["node"]):
+                f = self.facts(node)
+                for j, o in enumerate(self.branches):
+                    if o is b:
+                        continue
+                    txt, pol = o["atom"]
+                    if (txt, pol) in f:
+                        known_t.append(j)
+                    elif (txt, not pol) in f:
+                        known_f.append(j)
+            b["known_true"], b["known_false"] = sorted(set(known_t)), sorted(set(known_f))
 
-    def _chain(self, n: ast.If) -> list[dict] | None:
-        out = []
-        cur: ast.AST | None = n
-        while isinstance(cur, ast.If):
-            t = self._test(cur.test)
-            if t is None:
-                return None
-            t["body"] = cur.body
-            t["node"] = cur
-            out.append(t)
-            cur = cur.orelse[0] if len(cur.orelse) == 1 and isinstance(cur.orelse[0], ast.If) else None
-        return out
+    def facts(self, node) -> set:
+        if id(node) not in self._facts:
+            self._facts[id(node)] = facts_at(self.cfg, node)
+        return self._facts[id(node)]
 
     def _test(self, t: ast.AST) -> dict | None:
         if isinstance(t, ast.Compare) and len(t.ops) == 1 and isinstance(t.ops[0], ast.Eq):
@@ -200,26 +228,29 @@ class Reader:
         return None
 
     def analyse_branch(self, b: dict) -> None:
-        """strip suffix, destination container, codec chain of the stored value."""
+        """strip suffix, destination container, codec chain of the stored value: read from the assignments that execute
+        only when the branch's test holds (path fact), wherever they are written."""
         b["strip"] = None
         b["dest"] = None
         b["ops"] = None
-        for s in b["body"]:
-            for n in ast.walk(s):
-                if isinstance(n, ast.Assign) and len(n.targets) == 1:
-                    tgt, val = n.targets[0], n.value
-                    if isinstance(tgt, ast.Subscript) and isinstance(tgt.value, ast.Name):
-                        b["dest"] = tgt.value.id
-                        key = expand(tgt.slice, n, depth=1)
-                        b["strip"] = _strip_of(key, self.subject)
-                        ops, _root = codec_chain(expand(val, n, depth=4))
+        for n in ast.walk(self.fn):
+            if isinstance(n, ast.Assign) and len(n.targets) == 1 and enclosing_function(n) is self.fn:
+                nodes = self.cfg.nodes_of(n)
+                if not nodes or not all(b["atom"] in self.facts(x) for x in nodes):
+                    continue
+                tgt, val = n.targets[0], n.value
+                if isinstance(tgt, ast.Subscript) and isinstance(tgt.value, ast.Name):
+                    b["dest"] = tgt.value.id
+                    key = expand(tgt.slice, n, depth=1)
+                    b["strip"] = _strip_of(key, self.subject)
+                    ops, _root = codec_chain(expand(val, n, depth=4))
+                    b["ops"] = ops
+                elif isinstance(tgt, ast.Name):
+                    ops, root = codec_chain(val)
+                    if ops and b["dest"] is None and not any(isinstance(x, ast.Name) and x.id == self.subject for x in ast.walk(val)):
+                        b["dest"] = tgt.id
                         b["ops"] = ops
-                    elif isinstance(tgt, ast.Name):
-                        ops, root = codec_chain(val)
-                        if ops and b["dest"] is None and not any(isinstance(x, ast.Name) and x.id == self.subject for x in ast.walk(val)):
-                            b["dest"] = tgt.id
-                            b["ops"] = ops
-                            b["strip"] = ""
+                        b["strip"] = ""
 
 
 def _strip_of(key: ast.AST, subject: str) -> str | None:
@@ -268,6 +299,11 @@ def _dest_fields(fn: ast.AST, dests: set[str]) -> dict[str, set[str]]:
                     for loop in ast.walk(fn):
                         if isinstance(loop, ast.For) and any(isinstance(t, ast.Name) and t.id == n for t in ast.walk(loop.target)) and any(x_ is c for x_ in ast.walk(loop)):
                             names |= {m.id for m in ast.walk(loop.iter) if isinstance(m, ast.Name)}
+                        # the same loop written as a comprehension (`[BackupEntry(…) for name, cr in cr_files.items()]`)
+                        if isinstance(loop, (ast.ListComp, ast.GeneratorExp, ast.SetComp)) and any(x_ is c for x_ in ast.walk(loop.elt)):
+                            for g in loop.generators:
+                                if any(isinstance(t, ast.Name) and t.id == n for t in ast.walk(g.target)):
+                                    names |= {m.id for m in ast.walk(g.iter) if isinstance(m, ast.Name)}
             for d in dests:
                 if d in names:
                     out[d].add(k.arg)
@@ -288,10 +324,36 @@ def _const_int(e: ast.AST, consts: dict[str, ast.AST], depth: int = 0) -> int | 
     return None
 
 
-def _flatten_add(e: ast.AST) -> list[ast.AST]:
+def _flatten_add(e: ast.AST, depth: int = 3) -> list[ast.AST]:
+    """Operands of a concatenation, looking through a local that names a partial concatenation (`header = salt + nonce`)."""
     if isinstance(e, ast.BinOp) and isinstance(e.op, ast.Add):
-        return _flatten_add(e.left) + _flatten_add(e.right)
+        return _flatten_add(e.left, depth) + _flatten_add(e.right, depth)
+    if isinstance(e, ast.Name) and depth > 0:
+        d = reaching_def(e.id, e)
+        if isinstance(d, ast.BinOp) and isinstance(d.op, ast.Add):
+            return _flatten_add(d, depth - 1)
     return [e]
+
+
+def _resolve(e: ast.AST, depth: int = 6) -> ast.AST:
+    """The expression a local stands for, through straight-line assignments, tuple packing and unpacking
+    (`t = (a, b); x, y = t`  ->  x is a)."""
+    while depth > 0:
+        depth -= 1
+        if isinstance(e, ast.Name) and isinstance(e.ctx, ast.Load) and parent(e) is not None:
+            d = reaching_def(e.id, e)
+            if d is None:
+                return e
+            e = d
+        elif isinstance(e, ast.Subscript) and isinstance(e.slice, ast.Constant) and isinstance(e.slice.value, int):
+            inner = _resolve(e.value, depth)
+            if isinstance(inner, (ast.Tuple, ast.List)) and -len(inner.elts) <= e.slice.value < len(inner.elts) and not any(isinstance(x, ast.Starred) for x in inner.elts):
+                e = inner.elts[e.slice.value]
+            else:
+                return e
+        else:
+            return e
+    return e
 
 
 def layout_of_encrypt(fn: ast.AST, consts: dict[str, ast.AST]) -> dict:
@@ -332,30 +394,29 @@ def layout_of_decrypt(fn: ast.AST, consts: dict[str, ast.AST]) -> dict:
     if not params:
         raise AnchorError("decrypt takes no data parameter")
     data = params[0]
-    slices: dict[str, tuple[int | None, int | None]] = {}
-    for n in ast.walk(fn):
-        if isinstance(n, ast.Assign) and len(n.targets) == 1 and isinstance(n.targets[0], ast.Name) and isinstance(n.value, ast.Subscript):
-            sub = n.value
-            if isinstance(sub.value, ast.Name) and sub.value.id == data and isinstance(sub.slice, ast.Slice):
-                lo = 0 if sub.slice.lower is None else _const_int(sub.slice.lower, consts)
-                hi = None if sub.slice.upper is None else _const_int(sub.slice.upper, consts)
-                if lo is None or (sub.slice.upper is not None and hi is None):
-                    raise AnchorError(f"slice bound in decrypt is not a constant expression: {ast.unparse(sub)}")
-                slices[n.targets[0].id] = (lo, hi)
+    def data_slice(a: ast.AST) -> tuple[int | None, int | None] | None:
+        """[lo:hi] when the argument is (a local standing for) a constant slice of the data parameter."""
+        sub = _resolve(a)
+        if isinstance(sub, ast.Subscript) and isinstance(sub.value, ast.Name) and sub.value.id == data and isinstance(sub.slice, ast.Slice) and sub.slice.step is None:
+            lo = 0 if sub.slice.lower is None else _const_int(sub.slice.lower, consts)
+            hi = None if sub.slice.upper is None else _const_int(sub.slice.upper, consts)
+            if lo is None or (sub.slice.upper is not None and hi is None):
+                raise AnchorError(f"slice bound in decrypt is not a constant expression: {ast.unparse(sub)}")
+            return (lo, hi)
+        return None
+
     kdf = [c for c in ast.walk(fn) if isinstance(c, ast.Call) and "derive" in (last(call_name(c)) or "")]
     dec = [c for c in ast.walk(fn) if isinstance(c, ast.Call) and isinstance(c.func, ast.Attribute) and c.func.attr == "decrypt"]
     if not kdf or not dec:
         raise AnchorError("decrypt has no key derivation / AEAD decrypt call")
     roles: dict[str, tuple[int | None, int | None] | None] = {"salt": None, "nonce": None, "ciphertext": None}
     for a in kdf[0].args + [k.value for k in kdf[0].keywords]:
-        if isinstance(a, ast.Name) and a.id in slices:
-            roles["salt"] = slices[a.id]
+        sl = data_slice(a)
+        if sl is not None:
+            roles["salt"] = sl
     if len(dec[0].args) >= 2:
-        a0, a1 = dec[0].args[0], dec[0].args[1]
-        if isinstance(a0, ast.Name) and a0.id in slices:
-            roles["nonce"] = slices[a0.id]
-        if isinstance(a1, ast.Name) and a1.id in slices:
-            roles["ciphertext"] = slices[a1.id]
+        roles["nonce"] = data_slice(dec[0].args[0])
+        roles["ciphertext"] = data_slice(dec[0].args[1])
     return {"roles": roles, "kdf": kdf[0], "aead": dec[0], "data": data}
 
 
@@ -414,11 +475,15 @@ def eval_rules(arch_tree: ast.AST, enc_tree: ast.AST, dns_pattern: str):
     K = A.K
     lit = lambda s: L_word(K, A.word(s))  # noqa: E731
     blang = []
-    seen = None
-    for b in R.branches:
-        C = lit(b["text"]) if b["kind"] == "eq" else L_all(K).concat(lit(b["text"]))
-        E = C if seen is None else C - seen
-        seen = C if seen is None else (seen | C)
+    conds = [lit(b["text"]) if b["kind"] == "eq" else L_all(K).concat(lit(b["text"])) for b in R.branches]
+    for b, C in zip(R.branches, conds):
+        # names that reach this test (every test already decided on the way: known false -> excluded, known true -> required)
+        # and make it come out the way that enters the branch
+        E = C
+        for j in b["known_false"]:
+            E = E - conds[j]
+        for j in b["known_true"]:
+            E = E & conds[j]
         blang.append(E)
     dest_fields = _dest_fields(rfn, {b["dest"] for b in R.branches if b["dest"]})
     flangs = []
@@ -592,7 +657,7 @@ def eval_rules(arch_tree: ast.AST, enc_tree: ast.AST, dns_pattern: str):
             if b is None or not b["dest"]:
                 continue
             derived = _derived_vars(rfn, b["dest"])
-            for key, node in _keys_read(rfn, derived):
+            for key, node in _keys_read(rfn, derived, elem_of=b["dest"]):
                 nk += 1
                 yield ("ob", "C33.R4", f"meta-key:{key}", f"key `{key}` read from `{e['suffix']}` files is written by the writer", key in e["keys"], "a", node, rfn, f"writer keys: {e['keys']}")
     yield ("floor", "C33.R4", "keys read by the reader", nk)
@@ -618,12 +683,23 @@ def _derived_vars(fn: ast.AST, base: str) -> set[str]:
     return out - {base}
 
 
-def _keys_read(fn: ast.AST, vars_: set[str]) -> list[tuple[str, ast.AST]]:
+def _keys_read(fn: ast.AST, vars_: set[str], elem_of: str | None = None) -> list[tuple[str, ast.AST]]:
+    """Constant keys read from the dicts named in vars_, or directly from an element taken out of the container `elem_of`
+    (`C.get(k, {}).get("key")` / `C[k]["key"]`) without a local in between."""
+    def is_recv(r: ast.AST) -> bool:
+        if isinstance(r, ast.Name):
+            return r.id in vars_
+        if elem_of is not None and isinstance(r, ast.Call) and isinstance(r.func, ast.Attribute) and r.func.attr == "get" and isinstance(r.func.value, ast.Name) and r.func.value.id == elem_of:
+            return True
+        if elem_of is not None and isinstance(r, ast.Subscript) and isinstance(r.value, ast.Name) and r.value.id == elem_of and isinstance(r.ctx, ast.Load):
+            return True
+        return False
+
     out = []
     for n in ast.walk(fn):
-        if isinstance(n, ast.Subscript) and isinstance(n.value, ast.Name) and n.value.id in vars_ and isinstance(n.slice, ast.Constant) and isinstance(n.slice.value, str) and isinstance(n.ctx, ast.Load):
+        if isinstance(n, ast.Subscript) and is_recv(n.value) and isinstance(n.slice, ast.Constant) and isinstance(n.slice.value, str) and isinstance(n.ctx, ast.Load):
             out.append((n.slice.value, n))
-        if isinstance(n, ast.Call) and isinstance(n.func, ast.Attribute) and n.func.attr == "get" and isinstance(n.func.value, ast.Name) and n.func.value.id in vars_ and n.args and isinstance(n.args[0], ast.Constant) and isinstance(n.args[0].value, str):
+        if isinstance(n, ast.Call) and isinstance(n.func, ast.Attribute) and n.func.attr == "get" and is_recv(n.func.value) and n.args and isinstance(n.args[0], ast.Constant) and isinstance(n.args[0].value, str):
             out.append((n.args[0].value, n))
     seen = set()
     res = []
@@ -681,7 +757,46 @@ _EN = "packages/llama-agents-control-plane/src/llama_agents/control_plane/backup
 _SY = '            elif name.endswith(".secret.yaml"):\n                deploy_name = name.removesuffix(".secret.yaml")\n                secret_files[deploy_name] = yaml.safe_load(content)\n'
 _Y = '            elif name.endswith(".yaml"):\n                deploy_name = name.removesuffix(".yaml")\n                cr_files[deploy_name] = yaml.safe_load(content)\n'
 _MJ = '            elif name.endswith(".meta.json"):\n                deploy_name = name.removesuffix(".meta.json")\n                meta_files[deploy_name] = json.loads(content)\n'
+_IND = "            "
+_ENC_ARM = ('name.endswith(".secret.enc"):\n                deploy_name = name.removesuffix(".secret.enc")\n                if encryption_password is None:\n                    raise ValueError(\n'
+            '                        f"Archive contains encrypted secrets but no password provided "\n                        f"(file: {name})"\n                    )\n'
+            '                decrypted = decrypt(content, encryption_password)\n                secret_files[deploy_name] = yaml.safe_load(decrypted)\n')
+_CHAIN = ('            if name == "manifest.json":\n                manifest_data = json.loads(content)\n            elif ' + _ENC_ARM + _MJ + _SY + _Y)
+
+
+def _guards(order: tuple = ("enc", "meta", "sy", "y"), fallthrough: str = "", invert_last: bool = False) -> str:
+    """The reader's decision list as `if …: …; continue` guards (arms in the given order; `fallthrough` names an arm written
+    without its `continue`; invert_last writes the last arm as `if not …: continue` followed by its statements)."""
+    arms = {"enc": "            if " + _ENC_ARM, "meta": _MJ.replace("elif", "if", 1), "sy": _SY.replace("elif", "if", 1), "y": _Y.replace("elif", "if", 1)}
+    out = '            if name == "manifest.json":\n                manifest_data = json.loads(content)\n                continue\n'
+    for i, k in enumerate(order):
+        if invert_last and i == len(order) - 1:
+            head, *body = arms[k].splitlines(keepends=True)
+            out += head.replace("if ", "if not ", 1) + "                continue\n" + "".join(x[4:] for x in body)
+        else:
+            out += arms[k] + ("" if k == fallthrough or i == len(order) - 1 else "                continue\n")
+    return out
+
+
+_DEC = "    salt = data[:SALT_LENGTH]\n    nonce = data[SALT_LENGTH : SALT_LENGTH + NONCE_LENGTH]\n    ciphertext = data[SALT_LENGTH + NONCE_LENGTH :]\n"
+_DEC_T = "    parts = (data[:SALT_LENGTH], data[SALT_LENGTH : SALT_LENGTH + NONCE_LENGTH], data[SALT_LENGTH + NONCE_LENGTH :])\n"
+_HDR = ("NONCE_LENGTH = 12\n", "NONCE_LENGTH = 12\nHEADER_SIZE = SALT_LENGTH + NONCE_LENGTH\n")
 TWINS: list[Twin] = [
+    # ---- the decision list as `continue` guards; slices through a packed tuple; derived layout constants
+    Twin("benign: reader chain as continue guards", _AR, _CHAIN, _guards(), None),
+    Twin("benign: continue guards, last arm inverted", _AR, _CHAIN, _guards(invert_last=True), None),
+    Twin("continue guards: generic .yaml guard before .secret.yaml", _AR, _CHAIN, _guards(order=("enc", "meta", "y", "sy")), "C33.R1"),
+    Twin("continue guards: .secret.yaml arm falls through into the .yaml arm", _AR, _CHAIN, _guards(fallthrough="sy"), "C33.R1"),
+    Twin("benign: wire slices through a packed tuple", _EN, _DEC, _DEC_T + "    salt, nonce, ciphertext = parts\n", None),
+    Twin("packed tuple unpacked in the wrong order", _EN, _DEC, _DEC_T + "    nonce, salt, ciphertext = parts\n", "C33.R2"),
+    Twin("benign: header concatenated into a local", _EN, "    return salt + nonce + ciphertext", "    header = salt + nonce\n    return header + ciphertext", None),
+    Twin("header local concatenated in the wrong order", _EN, "    return salt + nonce + ciphertext", "    header = nonce + salt\n    return header + ciphertext", "C33.R2"),
+    Twin("benign: derived header-length constant", _EN, *_multi(_EN, [_HDR, ("nonce = data[SALT_LENGTH : SALT_LENGTH + NONCE_LENGTH]", "nonce = data[SALT_LENGTH:HEADER_SIZE]"), ("ciphertext = data[SALT_LENGTH + NONCE_LENGTH :]", "ciphertext = data[HEADER_SIZE:]")]), None),
+    Twin("derived header-length constant forgets the nonce", _EN, *_multi(_EN, [("NONCE_LENGTH = 12\n", "NONCE_LENGTH = 12\nHEADER_SIZE = SALT_LENGTH\n"), ("ciphertext = data[SALT_LENGTH + NONCE_LENGTH :]", "ciphertext = data[HEADER_SIZE:]")]), "C33.R2"),
+    Twin("benign: entries built by a comprehension", _AR, "    entries = []\n    for name, cr in cr_files.items():\n        meta = meta_files.get(name, {})\n        entries.append(\n            BackupEntry(\n                name=name,\n                cr=cr,\n                secret=secret_files.get(name),\n                generation=meta.get(\"generation\"),\n            )\n        )\n",
+         "    entries = [BackupEntry(name=dn, cr=cr, secret=secret_files.get(dn), generation=meta_files.get(dn, {}).get(\"generation\")) for dn, cr in cr_files.items()]\n", None),
+    Twin("comprehension takes the secret from the CR table", _AR, "    entries = []\n    for name, cr in cr_files.items():\n        meta = meta_files.get(name, {})\n        entries.append(\n            BackupEntry(\n                name=name,\n                cr=cr,\n                secret=secret_files.get(name),\n                generation=meta.get(\"generation\"),\n            )\n        )\n",
+         "    entries = [BackupEntry(name=dn, cr=cr, secret=cr_files.get(dn), generation=meta_files.get(dn, {}).get(\"generation\")) for dn, cr in cr_files.items()]\n", "C33.R1"),
     Twin("decrypt remembers verified keys by salt", _EN, "    key = _derive_key(password, salt)\n    aesgcm = AESGCM(key)\n    return aesgcm.decrypt(nonce, ciphertext, None)", "    key = _VERIFIED.get(salt)\n    if key is None:\n        key = _derive_key(password, salt)\n    plaintext = AESGCM(key).decrypt(nonce, ciphertext, None)\n    _VERIFIED[salt] = key\n    return plaintext\n\n\n_VERIFIED: dict[bytes, bytes] = {}", "C33.R2"),
     Twin("benign: key derivation memoised on (password, salt)", _EN, "def _derive_key(password: str, salt: bytes) -> bytes:", "@functools.lru_cache(maxsize=8)\ndef _derive_key(password: str, salt: bytes) -> bytes:", None),
 
